@@ -9,7 +9,7 @@ MANIFEST_ENTRY = dict(
     note=WALLET_NOTE)
 
 PARAMS = dict(quick_cfgs=['MC_C18_quick.cfg'], thorough_cfgs=['MC_C18.cfg'], quick_n=60, thorough_n=500,
-              setup={"nfund": 1, "pad": 3}, assumptions=WALLET_ASSUME, extra_behaviours=[])
+              setup={"nfund": 1, "pad": 3, "fault_scans": 4}, assumptions=WALLET_ASSUME, extra_behaviours=[])
 
 
 def run(tier, replay_path, t0):
